@@ -24,7 +24,31 @@ def build_cases(tier, seed):
         cases.append(progs.random_case(rng, i, rng.choice(["local", "local", "local_lru", "memory", "noop"])))
     cases += progs.location_cases(tier, seed)
     cases += aliased_local_import_probes()
+    cases += nested_scope_twin_probes()
     return cases
+
+
+def nested_scope_twin_probes():
+    """A function reads a module variable; a nested scope of the same function (a function defined in its body, a
+    comprehension) binds a name of its own that is spelled like that variable. The variable's value is edited."""
+    out = []
+    for i, kind in enumerate(("nested_def_local", "comprehension_target")):
+        for pos in ("A", "main"):
+            p0 = progs.base_program("c01ns%d%s" % (i, pos))
+            f = p0["fns"][p0["_ids"][pos]]
+            vid = gen.add_var(p0, f["module"], "V_TWIN", "int")
+            p0["order"][f["module"]].remove(("var", vid))
+            p0["order"][f["module"]].insert(0, ("var", vid))
+            f["reads"].append([vid, "bare"])
+            if kind == "nested_def_local":
+                f["stmts"].append(gen.s_nested_def(64, vid, form="local_twin"))
+            else:
+                f["comp_twin"] = vid
+            p1, d = gen.e_set_var(p0, vid)
+            d.update({"position": pos, "variant": "nested_scope_twin:" + kind})
+            for hn, hist in (("restart", progs.history_restart([0, 1, 0, 1])), ("reload", progs.history_same_process([0, 1, 0, 1], "reload"))):
+                out.append(progs._case("nested_scope_twin:%s@%s|%s|local" % (kind, pos, hn), [p0, p1], {(0, 1): d}, hist, "local"))
+    return out
 
 
 def aliased_local_import_probes():
@@ -47,6 +71,8 @@ def classify(case, hi, feats):
     ed = feats.get("edit") or {}
     if case.get("name", "").startswith("aliased_local_import:") and feats.get("kind") == "stale-or-wrong-value" and ed.get("import_form") in gen.ALIASED_LOCAL_FORMS and ed.get("position") == "h2":
         return "function-local-aliased-import-not-tracked"
+    if case.get("name", "").startswith("nested_scope_twin:") and feats.get("kind") == "stale-or-wrong-value" and str(ed.get("variant", "")).startswith("nested_scope_twin:") and ed.get("kind") == "set_var":
+        return "module-variable-hidden-by-nested-scope-binding"
     return None
 
 
